@@ -15,7 +15,7 @@ MIN_NONTRIVIAL = {"quick": 300, "thorough": 3000}
 RULE = ("Hypothesis byte-backed generator: table of 1-12 commands built from shared stems (ambiguous / unique / exact "
         "abbreviations), all handler subsets, scripts of 0-3 NEXT/DATA_NEXT then a terminal code, command capacity 6-64, "
         "1-12 lines from a line grammar each optionally broken at a generated position with a syntactically valid command "
-        "as tail text, LF/CRLF, stray CRs, random io schedule; plus an enumerated sweep of all registration orders of "
+        "as tail text, LF/CRLF, stray CRs, random io schedule; in a quarter of the cases 1-5 unsolicited events of commands that no line names, with unsolicited capacities 4-32 so that some event texts do not fit and are dropped (they must neither cost nor add a result code); plus an enumerated sweep of all registration orders of "
         "every <=4-command table over the +T/+TA/+TB/+TAB family x typed prefix x suffix; plus a libFuzzer campaign (world/fuzz_c01.c: structured descriptor decode, raw input bytes, streaming result-code monitor inside the target; its non-trivial inputs = at least 2 terminated non-blank lines, counted as distinct input hashes per worker). Non-trivial = at least 2 "
         "non-blank lines and at least one broken line with >=1 byte after the break; distinct by case hash.")
 ASSUMPTIONS = ["handlers eventually return a terminal code (finite scripts, no HOLD)",
